@@ -22,6 +22,7 @@ func CorpusC02() []*Input {
 		{Steps: []Step{{Backs: seqBack(6, 1, "", false, "10.0.0.1", "10.0.0.1", "10.0.0.2")}, {Backs: seqBack(6, 1, "", false, "10.0.0.1", "10.0.0.1", "10.0.0.3")}}},
 	}
 	in = append(in, corpusWeights()...)
+	in = append(in, corpusGenerations()...)
 	in = append(in, corpusLinked()...)
 	return append(in, corpusCerts()...)
 }
@@ -41,6 +42,27 @@ func corpusWeights() []*Input {
 		{Steps: []Step{{Backs: weighted(1, 1)}, {Backs: weighted(1, 0)}, {Backs: weighted(1, 0, 1)}, {Backs: weighted(1, 1, 1)}}},
 		{Steps: []Step{{Backs: weighted(128, 128)}, {Backs: weighted(256, 0)}, {Backs: weighted(0, 256)}, {Backs: weighted(0, 256, 0)}}},
 	}
+}
+
+// corpusGenerations: a dynamic update, then an update that reloads (a new backend), then dynamic
+// updates again (endpoint drained, certificate renewed, scale down): the commands must reach the
+// process that listens after the reload, whether the former one lingers (soft stop) or exits.
+func corpusGenerations() []*Input {
+	var out []*Input
+	for _, exits := range []bool{false, true} {
+		h := tlsHost("g.local", "gen", "gen-v1")
+		h2 := tlsHost("g.local", "gen", "gen-v2")
+		nb := BackSpec{NS: "d", Name: "other", Port: "8080", Dyn: true, MinFree: 1, Block: 1, InitW: 1, Eps: []EpSpec{{IP: "10.0.5.1", Port: 80, Weight: 1}}}
+		out = append(out, &Input{OldExits: exits, Steps: []Step{
+			{Backs: weighted(1, 1), Hosts: []HostSpec{h}},
+			{Backs: weighted(1, 1, 1)},
+			{Backs: []BackSpec{nb}},
+			{Backs: weighted(1, 0, 1)},
+			{Hosts: []HostSpec{h2}},
+			{Backs: weighted(1, 1)},
+		}})
+	}
+	return out
 }
 
 func tlsHost(name, crt, content string) HostSpec {
